@@ -309,8 +309,9 @@ impl GlobWalker {
                     _ => unreachable!(),
                 };
                 let entry = filtrate.as_ref();
-                let (_, path) = self::root_relative_paths(entry.path(), entry.depth(), pivot);
-                let depth = entry.depth().saturating_sub(1);
+                let (_, path) =
+                    self::root_relative_paths(entry.path(), entry.tree_depth(), pivot);
+                let depth = entry.tree_depth().saturating_sub(1);
                 // Component programs are compiled from the nominal components of the glob, which
                 // include literal `.` and `..` components but never a root or prefix. Discard
                 // root and prefix components before skipping so that candidates remain aligned
@@ -615,7 +616,7 @@ impl Entry for GlobEntry {
     }
 
     fn root_relative_paths(&self) -> (&Path, &Path) {
-        self::root_relative_paths(self.path(), self.entry.depth(), self.pivot)
+        self::root_relative_paths(self.path(), self.entry.tree_depth(), self.pivot)
     }
 
     fn file_type(&self) -> FileType {
@@ -627,10 +628,8 @@ impl Entry for GlobEntry {
     }
 
     fn depth(&self) -> usize {
-        self.entry
-            .depth()
-            .checked_add(self.pivot)
-            .expect("overflow determining depth")
+        // The depth of a `TreeEntry` includes its pivot.
+        self.entry.depth()
     }
 }
 
